@@ -329,4 +329,5 @@ class DetectorConvergenceCondition(StoppingCondition):
             operand=None,
         )
 
-        return (~min_steps_condition) | (time_condition & (~converged))
+        # the maximum (and the total step count) always wins, also below min_steps -- as in EnergyThresholdCondition
+        return time_condition & ((~min_steps_condition) | (~converged))
